@@ -51,6 +51,30 @@
 (* interleave the tables in four orders, the driver walks each schedule on  *)
 (* one ELFFile).                                                            *)
 (*                                                                         *)
+(* Mode "dyn" (strengthening round 5): the table as a reader WITHOUT the    *)
+(* section object gets it.  The file is a dynamic object - .dynsym,         *)
+(* .dynstr, .hash, .gnu.hash, .dynamic, one PT_LOAD, PT_DYNAMIC (gABI ch.5   *)
+(* "Program Header", "Dynamic Section": DT_SYMTAB / DT_STRTAB / DT_HASH /    *)
+(* DT_GNU_HASH are addresses, DT_STRSZ, DT_SYMENT sizes) - over tables with  *)
+(* duplicate names and several empty names, with and without section header *)
+(* table, the array naming both hash tables, DT_HASH alone or DT_GNU_HASH    *)
+(* alone (then something is hashed: the count is determined).  Link writes   *)
+(* the array; SegRead is the segment reader (PT_DYNAMIC -> DynScan!Scan ->   *)
+(* addresses through PT_LOAD -> count from the hash tables -> entries);      *)
+(* SegViewAgrees: it finds exactly the writer's table bytes, the true count  *)
+(* and, scanning for a name, exactly ByName; DynWellFormed: the object is    *)
+(* laid out as the gABI says.  Client sessions (StartSession / ClientCall,   *)
+(* one action per public call on ONE long-lived object - the segment, or the *)
+(* .dynsym section object -, the log holds the answer the declarative view   *)
+(* fixes for each call): look-ups by name in every order (present,           *)
+(* duplicated, absent, repeated), count, listing, by index, a stepwise       *)
+(* iteration in between.  SessionAnswers (the logged answer = a fresh scan   *)
+(* of the bytes, whatever was asked before), SessionOrderFree, IterInOrder,  *)
+(* SessionsCover, SessionFrame (calls do not change the object).  Every      *)
+(* finished session is emitted (SessLine) and replayed call by call.         *)
+(* Parameters of the mode are definitions (DynIds .. DynTags, FreeCalls): a  *)
+(* configuration overrides them (DynSyms <- DynSymsT), no CONSTANTS.         *)
+(*                                                                         *)
 (* TLC checks on the specification itself, for every table in the bounds    *)
 (* and every query name: LookupSound, LookupComplete, GnuFindsFirst,        *)
 (* CountExact, CountDetermined, NoFault / ChainInBounds / ChainProgress     *)
@@ -113,8 +137,9 @@ CONSTANTS Modes,         \* subset of {"lookup", "fields"}
           MultiCls       \* <<class, little endian>> pairs of the multi mode
 
 \* `more`: the symbol tables of the file that are already complete (multi mode; <<>> otherwise); `tab` is the one being built
-VARIABLES mode, cf, tab, more, phase, hp, mem, rd
-vars == <<mode, cf, tab, more, phase, hp, mem, rd>>
+\* `sess`: the client session on the finished object (dyn mode; NoSess otherwise)
+VARIABLES mode, cf, tab, more, phase, hp, mem, rd, sess
+vars == <<mode, cf, tab, more, phase, hp, mem, rd, sess>>
 
 (* ------------------------------- names --------------------------------- *)
 NameSeq == TLCEval(<< <<>>,                                    \* 1  ""
@@ -260,12 +285,23 @@ MachFor(c) == {m \in Machines : ~HashWordUnspecified(c, m) /\ m # DefMach(c)}
 MachinesQuick == {0, 2, 8, 20, 21, 22, 40, 41, 36902, 62, 183, 243}
 MachinesFull == {0, 2, 3, 4, 8, 15, 20, 21, 22, 40, 41, 42, 43, 50, 62, 183, 243, 258, 36902, 41872, 4660}
 Cf(cl, kind, extra, sf) == [cls |-> cl[1], le |-> cl[2], kind |-> kind, extra |-> extra, strfirst |-> sf, mach |-> DefMach(cl[1]),
-                            naming |-> "own"]
+                            naming |-> "own", sht |-> TRUE, tags |-> "none"]
 \* mach mode: <<nbucket(s), symoffset, bloom size, shift>>
 MachParams == {<<1, 1, 1, 5>>, <<2, 1, 2, 0>>, <<3, 2, 1, 31>>}
 Namings == {"own", "same", "blank"}
 NoHp == [nb |-> 0, so |-> 0, bs |-> 0, sh |-> 0]
-NoMem == [g |-> <<>>, v |-> <<>>, sym |-> <<>>, str |-> <<>>, ent |-> 0]
+NoMem == [g |-> <<>>, v |-> <<>>, sym |-> <<>>, str |-> <<>>, ent |-> 0, dyn |-> <<>>]
+NoSess == [tgt |-> "", disc |-> "", log |-> <<>>, it |-> -1]
+\* dyn mode (parameters are definitions: a configuration may override them, DynSyms <- DynSymsT): name ids (the empty name
+\* among them: the null entry bears it too), symbols after the null entry, class / byte order, <<nbucket(s), symoffset, bloom
+\* size, shift>>, which hash tables the dynamic array names
+DynIds == {1, 2, 3}
+DynSyms == 3
+DynSymsT == 4
+DynCls == ClsLeTwo
+DynClsT == ClsLe
+DynParams == {<<2, 1, 1, 5>>, <<1, 2, 2, 0>>}
+DynTags == {"both", "sysv", "gnu"}
 Idle == [kind |-> "idle", q |-> 0, st |-> RS("idle", 0, -1, FALSE, 0)]
 \* fields mode: section kind x entry padding x name-table position, each class/byte order
 FieldCfs == {Cf(cl, "dynsym", 0, FALSE) : cl \in ClsLe} \cup {Cf(cl, "symtab", 8, TRUE) : cl \in ClsLe}
@@ -275,7 +311,7 @@ FieldParams == {<<7, 1, 2, 6>>, <<16, (FieldN * 3) \div 4, 1, 31>>}
 
 Init ==
   /\ mode \in Modes
-  /\ phase = "symbols" /\ hp = NoHp /\ mem = NoMem /\ rd = Idle /\ more = <<>>
+  /\ phase = "symbols" /\ hp = NoHp /\ mem = NoMem /\ rd = Idle /\ more = <<>> /\ sess = NoSess
   /\ CASE mode = "lookup" -> \E cl \in ClsLe : cf = Cf(cl, "dynsym", 0, FALSE) /\ tab = <<NullSym>>
        [] mode = "fields" -> \/ \E c \in FieldCfs : cf = c /\ tab = FieldsTab(c.cls)
                              \/ \E cl \in ClsLe : cf = Cf(cl, "symtab", 0, FALSE) /\ tab = <<>>      \* the empty table
@@ -283,23 +319,26 @@ Init ==
                              cf = [Cf(cl, "dynsym", 0, FALSE) EXCEPT !.mach = m] /\ tab = <<NullSym>>
        [] mode = "multi" -> \E cl \in MultiCls, nm \in Namings :
                              cf = [Cf(cl, "symtab", 0, FALSE) EXCEPT !.naming = nm] /\ tab = <<NullSym>>
+       [] mode = "dyn" -> \E cl \in DynCls, sh \in BOOLEAN, tg \in DynTags :
+                             cf = [Cf(cl, "dynsym", 0, FALSE) EXCEPT !.sht = sh, !.tags = tg] /\ tab = <<NullSym>>
 
 \* the last position of the longest tables takes its name from LastIds (a configuration may bound it more tightly)
-Growing == mode \in {"lookup", "mach", "multi"}
-SymBound == IF mode = "lookup" THEN MaxSyms ELSE SmallSyms
+Growing == mode \in {"lookup", "mach", "multi", "dyn"}
+SymBound == CASE mode = "lookup" -> MaxSyms [] mode = "dyn" -> DynSyms [] OTHER -> SmallSyms
 AddSymbol(id) ==
   /\ phase = "symbols" /\ Growing /\ Len(tab) <= SymBound
   /\ (mode = "lookup" /\ Len(tab) = MaxSyms => id \in LastIds)
-  /\ id \in (IF mode = "lookup" THEN NameIds ELSE SmallIds)
+  /\ id \in (CASE mode = "lookup" -> NameIds [] mode = "dyn" -> DynIds [] OTHER -> SmallIds)
   /\ tab' = Append(tab, IF mode = "multi" THEN MSym(id, Len(tab), Len(more)) ELSE LSym(id, Len(tab)))
-  /\ UNCHANGED <<mode, cf, more, phase, hp, mem, rd>>
+  /\ UNCHANGED <<mode, cf, more, phase, hp, mem, rd, sess>>
 \* multi mode: the table is complete, the file gets a further symbol table
 NextTable ==
   /\ phase = "symbols" /\ mode = "multi" /\ Len(more) + 1 < MultiTabs
   /\ more' = Append(more, tab) /\ tab' = <<NullSym>>
-  /\ UNCHANGED <<mode, cf, phase, hp, mem, rd>>
+  /\ UNCHANGED <<mode, cf, phase, hp, mem, rd, sess>>
 
-Serialise(t, v) == [g |-> <<>>, v |-> v, sym |-> EncSyms(t, cf.cls, cf.le, cf.extra), str |-> StrBytes(t), ent |-> EntSize(cf.cls, cf.extra)]
+Serialise(t, v) == [g |-> <<>>, v |-> v, sym |-> EncSyms(t, cf.cls, cf.le, cf.extra), str |-> StrBytes(t), ent |-> EntSize(cf.cls, cf.extra),
+                    dyn |-> <<>>]
 \* choose nbucket(s) and symoffset: the hashed part is put in GNU bucket order, symbol and string tables
 \* are serialised and the SysV table is built
 Sort(nb, so) ==
@@ -309,20 +348,20 @@ Sort(nb, so) ==
      /\ mem' = Serialise(t, EncSysV(BuildSysV(t, nb, so), cf.le))
   /\ hp' = [nb |-> nb, so |-> so, bs |-> 0, sh |-> 0]
   /\ phase' = "sorted"
-  /\ UNCHANGED <<mode, cf, more, rd>>
+  /\ UNCHANGED <<mode, cf, more, rd, sess>>
 \* choose the bloom filter geometry: the GNU table is built
 BuildGnuTable(bs, sh) ==
   /\ phase = "sorted" /\ rd.kind = "idle"
   /\ mem' = [mem EXCEPT !.g = EncGnu(BuildGnu(tab, hp.nb, hp.so, bs, sh, cf.cls), cf.cls, cf.le)]
   /\ hp' = [hp EXCEPT !.bs = bs, !.sh = sh]
   /\ phase' = "hashed"
-  /\ UNCHANGED <<mode, cf, tab, more, rd>>
+  /\ UNCHANGED <<mode, cf, tab, more, rd, sess>>
 \* tables that carry no hash section: the empty table, the Solaris auxiliary table, the tables of a file with several
 FinishPlain ==
   /\ phase = "symbols" /\ (Len(tab) = 0 \/ cf.kind = "ldynsym" \/ (mode = "multi" /\ more # <<>>))
   /\ mem' = Serialise(tab, <<>>)
   /\ phase' = "plain"
-  /\ UNCHANGED <<mode, cf, tab, more, hp, rd>>
+  /\ UNCHANGED <<mode, cf, tab, more, hp, rd, sess>>
 
 (* ------------------------------- readers ------------------------------- *)
 \* the SysV readers run on the sorted table, the GNU readers once the GNU table exists
@@ -330,7 +369,7 @@ MG == [cls |-> cf.cls, le |-> cf.le, h |-> mem.g, sym |-> mem.sym, str |-> mem.s
 MV == [cls |-> cf.cls, le |-> cf.le, h |-> mem.v, sym |-> mem.sym, str |-> mem.str, ent |-> mem.ent]
 ReadyV == phase = "sorted" /\ rd.kind = "idle"
 ReadyG == phase = "hashed" /\ rd.kind = "idle"
-Keep == UNCHANGED <<mode, cf, tab, more, phase, hp, mem>>
+Keep == UNCHANGED <<mode, cf, tab, more, phase, hp, mem, sess>>
 At(kind, pc) == rd.kind = kind /\ rd.st.pc = pc
 
 StartGnu(k) == ReadyG /\ rd' = [kind |-> "gnu", q |-> k, st |-> GnuStart] /\ Keep
@@ -349,23 +388,6 @@ GnuCountAdvance == rd' = [rd EXCEPT !.st = GnuCountStep(MG, GnuHdr(MG), rd.st)] 
 GnuCountMax == At("gnucount", "max") /\ GnuCountAdvance
 GnuCountWalk == At("gnucount", "walk") /\ GnuCountAdvance
 SysVCountRead == ReadyV /\ rd' = [kind |-> "sysvcount", q |-> 0, st |-> RS("done", 0, SysVCount(MV), TRUE, 0)] /\ Keep
-
-Next ==
-  \/ \E id \in NameIds \cup SmallIds : AddSymbol(id)
-  \/ (mode = "lookup" /\ \E nb \in NBuckets, so \in 1..(MaxSyms + 1) : Sort(nb, so))
-  \/ (mode = "lookup" /\ \E b \in Blooms : BuildGnuTable(b[1], b[2]))
-  \/ (mode = "fields" /\ \E p \in FieldParams : Sort(p[1], p[2]))
-  \/ (mode = "fields" /\ \E p \in FieldParams : p[1] = hp.nb /\ BuildGnuTable(p[3], p[4]))
-  \/ (mode = "mach" /\ \E p \in MachParams : Sort(p[1], p[2]))
-  \/ (mode = "mach" /\ \E p \in MachParams : p[1] = hp.nb /\ p[2] = hp.so /\ BuildGnuTable(p[3], p[4]))
-  \/ NextTable
-  \/ FinishPlain
-  \* (the reader machines take no e_machine input - MG, MV: the mach mode does not run them again action by action;
-  \* its expectations come from the operator forms, which RunAgrees ties to the actions in the other modes)
-  \/ (mode # "mach" /\ \E k \in AllIds : StartGnu(k) \/ StartSysV(k))
-  \/ GnuBloomTest \/ GnuBucket \/ GnuChainStep \/ SysVBucket \/ SysVChainStep
-  \/ (mode # "mach" /\ (StartGnuCount \/ SysVCountRead)) \/ GnuCountMax \/ GnuCountWalk
-Spec == Init /\ [][Next]_vars
 
 (* ---------------------------- declarative view ------------------------- *)
 N0 == Len(tab)
@@ -406,7 +428,7 @@ DotShndx == <<46, 115, 121, 109, 116, 97, 98, 95, 115, 104, 110, 100, 120>>
 DotSyminfo == <<46, 83, 85, 78, 87, 95, 115, 121, 109, 105, 110, 102, 111>>
 Sht(name) == W(DTrunc(KindCodes[name], 4))
 
-HasHash == phase = "hashed"
+HasHash == phase \in {"hashed", "linked"}
 HasShndx == mode = "fields" /\ N0 > 0
 HasInfo == mode = "fields" /\ N0 > 0 /\ cf.kind # "ldynsym"
 UIdx(k) == IF cf.strfirst THEN k + 1 ELSE k
@@ -457,7 +479,6 @@ MultiImage ==
                     Sec(StrSecName(t), Sht("SHT_STRTAB"), N(2), Z, m.str, N(Len(m.str)), Z, Z, N(1), Z) >>
   IN [Im0 EXCEPT !.cls = c, !.le = cf.le, !.machine = cf.mach, !.strfirst = cf.strfirst,
                  !.secs = CatAll([t \in 1..NTabs |-> Pair(t)], NTabs)]
-Image == IF mode = "multi" THEN MultiImage ELSE SingleImage
 \* the view of table t of a file with several: entries in index order and, per name, the indices bearing it - a function of
 \* that table alone
 TabSymView(t, i) == LET x == AllTabs[t][i + 1] IN <<x.nm, x.value, x.size, x.info \div 16, x.info % 16, x.other, x.shndx, x.xs>>
@@ -473,13 +494,159 @@ NameMajor == CatAll([k \in AllIds |-> [t \in 1..NTabs |-> <<t, k>>]], Len(NameSe
 Sched(fresh, q) == [fresh |-> fresh, q |-> q]
 Scheds == <<Sched(FALSE, TableMajor), Sched(TRUE, NameMajor), Sched(TRUE, Rev(TableMajor)), Sched(FALSE, Rev(NameMajor))>>
 
+(* ------------------- dyn mode: the dynamic object ---------------------- *)
+\* gABI ch.5 "Program Header": PT_LOAD 1 maps the file bytes [p_offset, +p_filesz) at [p_vaddr, +p_filesz); PT_DYNAMIC 2
+\* locates the dynamic array.  ch.5 "Dynamic Section", figure 5-10: DT_NULL 0 ends the array, DT_HASH 4, DT_STRTAB 5,
+\* DT_SYMTAB 6 hold addresses, DT_STRSZ 10 the size of the string table, DT_SYMENT 11 the size of a symbol entry;
+\* DT_GNU_HASH 0x6ffffef5 (GNU).  ch.4 "Sections": SHT_DYNAMIC 6, sh_link = the string table of the entries.
+\* The file: .dynsym, .dynstr, .hash, .gnu.hash (as in the other modes), .dynamic; one PT_LOAD that maps the file from offset 0
+\* up to the end of the tables at DynBase; PT_DYNAMIC over .dynamic.  cf.sht = FALSE: the same file without section header
+\* table (e_shoff = e_shnum = e_shstrndx = 0) - the tables are reachable through the dynamic array alone.
+DS == INSTANCE DynScan
+DotDynamic == <<46, 100, 121, 110, 97, 109, 105, 99>>
+PtLoad == N(1)
+PtDynamic == N(2)
+DynBase == 1048576
+NoSeg == Seg(Z, Z, Z, Z, Z, Z, Z, Z)
+\* the four tables placed (two program headers precede them), every table at the address DynBase + its file offset
+DynPre == LET im == [SingleImage EXCEPT !.nosht = ~cf.sht, !.segs = <<NoSeg, NoSeg>>] IN
+          [im EXCEPT !.secs = [k \in 1..Len(im.secs) |-> [im.secs[k] EXCEPT !.addr = N(DynBase + SecOff(im, k))]]]
+DynOff(pre) == SecOff(pre, Len(pre.secs)) + Len(pre.secs[Len(pre.secs)].data)       \* .dynamic follows the last table
+\* the array: the hash tables cf.tags names, string and symbol table, their sizes, DT_NULL
+DynArray ==
+  LET pre == DynPre
+      Addr(k) == pre.secs[k].addr
+      ts == (IF cf.tags \in {"both", "sysv"} THEN << <<N(4), Addr(3)>> >> ELSE <<>>)
+            \o (IF cf.tags \in {"both", "gnu"} THEN << <<W(<<245, 254, 255, 111>>), Addr(4)>> >> ELSE <<>>)
+            \o << <<N(5), Addr(2)>>, <<N(6), Addr(1)>>, <<N(10), N(Len(mem.str))>>, <<N(11), N(mem.ent)>>, <<Z, Z>> >>
+  IN Flat([i \in 1..Len(ts) |-> Ser(DynF, [d_tag |-> ts[i][1], d_val |-> ts[i][2]], cf.cls, cf.le)])
+DynImage ==
+  LET pre == DynPre
+      w == cf.cls \div 8
+      doff == DynOff(pre)
+      end == doff + Len(mem.dyn)
+      dsec == Sec(DotDynamic, N(6), N(3), N(DynBase + doff), mem.dyn, N(Len(mem.dyn)), N(Ix.str), Z, N(w), N(2 * w))
+  IN [pre EXCEPT !.secs = Append(@, dsec),
+                 !.segs = << Seg(PtLoad, N(6), Z, N(DynBase), N(DynBase), N(end), N(end), N(4096)),
+                             Seg(PtDynamic, N(6), N(doff), N(DynBase + doff), N(DynBase + doff), N(Len(mem.dyn)), N(Len(mem.dyn)), N(w)) >>]
+Image == CASE mode = "multi" -> MultiImage [] mode = "dyn" /\ phase = "linked" -> DynImage [] OTHER -> SingleImage
+\* the hashed tables exist: the dynamic array is written, the object is complete
+Link ==
+  /\ mode = "dyn" /\ phase = "hashed" /\ rd.kind = "idle"
+  /\ mem' = [mem EXCEPT !.dyn = DynArray]
+  /\ phase' = "linked"
+  /\ UNCHANGED <<mode, cf, tab, more, hp, rd, sess>>
+
+\* The reader of the segment view (what the gABI tells a reader without section headers to do): PT_DYNAMIC locates the array,
+\* the array is scanned up to DT_NULL (DynScan!Scan), DT_SYMTAB / DT_STRTAB / DT_HASH / DT_GNU_HASH are addresses, translated
+\* through the PT_LOAD entry that holds them; the symbol count comes from DT_GNU_HASH when a chain determines it, else from
+\* DT_HASH (nchain); the string table extends DT_STRSZ bytes, an entry DT_SYMENT bytes.  The reader sees the file's data
+\* region (the bytes between the program headers and the section header table) and the program headers.
+SegRead(im) ==
+  LET w == im.cls \div 8
+      pd == im.segs[CHOOSE j \in 1..Len(im.segs) : im.segs[j].type = PtDynamic]
+      lj == SelectSeq(im.segs, LAMBDA g : g.type = PtLoad)
+      loads == [j \in 1..Len(lj) |-> [va |-> Digits(lj[j].vaddr, w), fsz |-> lj[j].filesz.n, msz |-> lj[j].memsz.n, off |-> lj[j].offset.n]]
+      base == DataOff(im)
+      region == Flat([k \in 1..Len(im.secs) |-> im.secs[k].data])
+      sc == DS!Scan(region, pd.offset.n - base, pd.filesz.n, im.cls, im.le)
+      Ent(c) == DS!FirstOf(sc.out, c)
+      Off(c) == IF Ent(c) = 0 THEN -1 ELSE DS!PtrToOffset(loads, sc.out[Ent(c)][2])
+      Val(c) == IF Ent(c) = 0 THEN -1 ELSE DS!DSmall(sc.out[Ent(c)][2])
+      From(o) == SubSeq(region, o - base + 1, Len(region))
+      HM(o) == [cls |-> im.cls, le |-> im.le, h |-> From(o), sym |-> <<>>, str |-> <<>>, ent |-> 1]
+      symo == Off(DS!DtSymtab)   stro == Off(DS!DtStrtab)   ho == Off(DS!DtHash)   go == Off(DS!DtGnuHash)
+      strsz == Val(DS!DtStrsz)   ent == Val(DS!DtSyment)
+      gc == IF go >= base THEN GnuCount(HM(go)) ELSE Fault(GnuCountStart)
+      cnt == IF gc.pc = "done" /\ gc.flag THEN gc.res ELSE IF ho >= base THEN SysVCount(HM(ho)) ELSE -1
+      ok == sc.pc = "done" /\ symo >= base /\ stro >= base /\ strsz >= 0 /\ ent > 0 /\ cnt >= 0
+            /\ symo - base + cnt * ent <= Len(region) /\ stro - base + strsz <= Len(region)
+  IN [ok |-> ok, n |-> sc.n, cnt |-> cnt, hash |-> ho >= base, gnu |-> go >= base,
+      m |-> IF ok THEN [cls |-> im.cls, le |-> im.le, h |-> <<>>, sym |-> SubSeq(region, symo - base + 1, symo - base + cnt * ent),
+                        str |-> SubSeq(region, stro - base + 1, stro - base + strsz), ent |-> ent]
+            ELSE [cls |-> im.cls, le |-> im.le, h |-> <<>>, sym |-> <<>>, str |-> <<>>, ent |-> 1]]
+
+(* --------------------------- client sessions --------------------------- *)
+\* What a symbol table object answers is a function of the table - not of what the object was asked before.  A session is a
+\* sequence of public calls on ONE long-lived object of a finished dyn-mode file: tgt = "seg" (the table as the PT_DYNAMIC
+\* segment gives it: by name, count, listing, by index, a stepwise iteration) or "sec" (the .dynsym section object of the
+\* same file; cf.sht only).  One action (ClientCall) per call; the log holds every call with the answer the declarative view
+\* fixes for it, as a sequence of symbol indices: name -> the indices bearing the name, ascending (<<>>: nothing); num ->
+\* <<count>>; all -> every index in table order; get -> <<index>>; open -> <<>> (a new iteration); step -> the next index of
+\* the open iteration, <<>> once it is exhausted.  Disciplines: "up" (every name of SessQ ascending - the empty name, names
+\* that may be present once or several times, a name that is absent -, count, listing, the names descending), "down" (the
+\* names descending - the absent one first -, listing, ascending), "weave" (an open iteration advanced between look-ups by name
+\* and by index, beyond its end), "free" (every sequence of FreeCalls look-ups by name, repeats included; on the objects of
+\* FreeOK).
+SessQ == <<1, 2, 3, 4>>                         \* "ab" (4) is outside DynIds: never in a dyn-mode table
+FreeCalls == 3
+FreeOK == cf.cls = 64 /\ cf.le /\ cf.tags = "both" /\ hp.nb = 2
+Discs == {"up", "down", "weave", "free"}
+RECURSIVE Asc(_)
+Asc(S) == IF S = {} THEN <<>> ELSE LET m == Min(S) IN <<m>> \o Asc(S \ {m})
+Letter(op, q) == [op |-> op, q |-> q]
+Names(qs) == [i \in 1..Len(qs) |-> Letter("name", qs[i])]
+Script(disc) ==
+  CASE disc = "up" -> Names(SessQ) \o <<Letter("num", 0), Letter("all", 0)>> \o Names(Rev(SessQ))
+    [] disc = "down" -> Names(Rev(SessQ)) \o <<Letter("all", 0)>> \o Names(SessQ)
+    [] disc = "weave" -> LET n == Max({Len(SessQ), N0 + 1}) IN
+                         <<Letter("open", 0)>>
+                         \o Flat([i \in 1..n |-> (IF i <= Len(SessQ) THEN <<Letter("name", SessQ[i])>> ELSE <<>>)
+                                                \o <<Letter("step", 0)>>
+                                                \o (IF i <= N0 THEN <<Letter("get", N0 - i)>> ELSE <<>>)])
+FreeLetters == {Letter("name", SessQ[i]) : i \in 1..Len(SessQ)}
+Call(l, ans) == [op |-> l.op, q |-> l.q, ans |-> ans]
+Answer(l, it) ==
+  CASE l.op = "name" -> Call(l, Asc(ByName(l.q)))
+    [] l.op = "num" -> Call(l, <<N0>>)
+    [] l.op = "all" -> Call(l, [i \in 1..N0 |-> i - 1])
+    [] l.op = "get" -> Call(l, <<l.q>>)
+    [] l.op = "open" -> Call(l, <<>>)
+    [] l.op = "step" -> Call(l, IF it < N0 THEN <<it>> ELSE <<>>)
+NextIt(l, it) == CASE l.op = "open" -> 0 [] l.op = "step" -> (IF it < N0 THEN it + 1 ELSE it) [] OTHER -> it
+StartSession(tgt, disc) ==
+  /\ mode = "dyn" /\ phase = "linked"
+  /\ (tgt = "sec" => cf.sht) /\ (disc = "free" => FreeOK)
+  /\ sess' = [tgt |-> tgt, disc |-> disc, log |-> <<>>, it |-> -1]
+  /\ phase' = "sess" /\ UNCHANGED <<mode, cf, tab, more, hp, mem, rd>>
+SessLen == IF sess.disc = "free" THEN FreeCalls ELSE Len(Script(sess.disc))
+ClientCall ==
+  /\ phase = "sess" /\ Len(sess.log) < SessLen
+  /\ \E l \in (IF sess.disc = "free" THEN FreeLetters ELSE {Script(sess.disc)[Len(sess.log) + 1]}) :
+       sess' = [sess EXCEPT !.log = Append(@, Answer(l, sess.it)), !.it = NextIt(l, sess.it)]
+  /\ UNCHANGED <<mode, cf, tab, more, phase, hp, mem, rd>>
+SessNext == (\E tgt \in {"seg", "sec"}, disc \in Discs : StartSession(tgt, disc)) \/ ClientCall
+
+Next ==
+  \/ \E id \in NameIds \cup SmallIds \cup DynIds : AddSymbol(id)
+  \/ (mode = "lookup" /\ \E nb \in NBuckets, so \in 1..(MaxSyms + 1) : Sort(nb, so))
+  \/ (mode = "lookup" /\ \E b \in Blooms : BuildGnuTable(b[1], b[2]))
+  \/ (mode = "fields" /\ \E p \in FieldParams : Sort(p[1], p[2]))
+  \/ (mode = "fields" /\ \E p \in FieldParams : p[1] = hp.nb /\ BuildGnuTable(p[3], p[4]))
+  \/ (mode = "mach" /\ \E p \in MachParams : Sort(p[1], p[2]))
+  \/ (mode = "mach" /\ \E p \in MachParams : p[1] = hp.nb /\ p[2] = hp.so /\ BuildGnuTable(p[3], p[4]))
+  \/ (mode = "dyn" /\ \E p \in DynParams : (cf.tags = "gnu" => p[2] < Len(tab)) /\ Sort(p[1], p[2]))
+  \/ (mode = "dyn" /\ \E p \in DynParams : p[1] = hp.nb /\ p[2] = hp.so /\ BuildGnuTable(p[3], p[4]))
+  \/ Link \/ SessNext
+  \/ NextTable
+  \/ FinishPlain
+  \* (the reader machines take no e_machine input - MG, MV: the mach mode does not run them again action by action;
+  \* its expectations come from the operator forms, which RunAgrees ties to the actions in the other modes)
+  \* (likewise the dyn mode)
+  \/ (mode \notin {"mach", "dyn"} /\ \E k \in AllIds : StartGnu(k) \/ StartSysV(k))
+  \/ GnuBloomTest \/ GnuBucket \/ GnuChainStep \/ SysVBucket \/ SysVChainStep
+  \/ (mode \notin {"mach", "dyn"} /\ (StartGnuCount \/ SysVCountRead)) \/ GnuCountMax \/ GnuCountWalk
+Spec == Init /\ [][Next]_vars
+
 (* ------------------------------ emission ------------------------------- *)
 \* a spec-computed mixing number decides which of the longer tables are replayed against the code
 Mix == LET RECURSIVE S(_)
            S(i) == IF i = 0 THEN 0 ELSE (S(i - 1) * 7 + tab[i].nm) % 1000003
        IN S(N0) * 31 + hp.nb * 5 + hp.so * 3 + hp.bs * 11 + hp.sh + (IF cf.cls = 64 THEN 2 ELSE 0) + (IF cf.le THEN 1 ELSE 0)
-Selected == mode \in {"fields", "mach", "multi"} \/ N0 <= AlwaysLen \/ Mix % EmitMod = 0
-Finished == phase \in {"hashed", "plain"} /\ rd.kind = "idle"
+Selected == mode \in {"fields", "mach", "multi", "dyn"} \/ N0 <= AlwaysLen \/ (Mix % EmitMod) = 0
+Finished == (IF mode = "dyn" THEN phase = "linked" ELSE phase \in {"hashed", "plain"}) /\ rd.kind = "idle"
+\* dyn mode: the identity of the object (the sessions on it are lines of their own, see SessLine)
+CaseKey == IF mode = "dyn" THEN ToString(<<cf.cls, cf.le, cf.sht, cf.tags, hp.nb, hp.so, [i \in 1..N0 |-> <<tab[i].nm, tab[i].value.n>>]>>) ELSE ""
 Serialised == phase \in {"sorted", "plain"} /\ rd.kind = "idle"
 Case == [mode |-> mode, cls |-> cf.cls, le |-> cf.le, kind |-> cf.kind, ent |-> mem.ent, chunks |-> Chunks(Image), ix |-> Ix,
          syms |-> [i \in 1..N0 |-> SymView(i - 1)],
@@ -488,8 +655,14 @@ Case == [mode |-> mode, cls |-> cf.cls, le |-> cf.le, kind |-> cf.kind, ent |-> 
          look |-> IF HasHash THEN [k \in AllIds |-> LookView(k)] ELSE <<>>,
          count |-> N0, hp |-> hp, mach |-> cf.mach, naming |-> cf.naming,
          tabs |-> IF mode = "multi" THEN [t \in 1..NTabs |-> TabView(t)] ELSE <<>>,
-         sched |-> IF mode = "multi" THEN Scheds ELSE <<>>]
+         sched |-> IF mode = "multi" THEN Scheds ELSE <<>>,
+         \* dyn mode: section headers or not, the hash tables the array names, the index of .dynamic and of the PT_DYNAMIC entry
+         key |-> CaseKey,
+         dyn |-> IF mode = "dyn" THEN [sht |-> cf.sht, tags |-> cf.tags, dynamic |-> UIdx(5), pt |-> 1] ELSE <<>>]
+SessLine == [sess |-> CaseKey, tgt |-> sess.tgt, disc |-> sess.disc,
+             log |-> [i \in 1..Len(sess.log) |-> <<sess.log[i].op, sess.log[i].q, sess.log[i].ans>>]]
 Emit == /\ (Finished /\ Selected => CSVWrite("%1$s", <<ToJson(Case)>>, IOEnv.OUT))
+        /\ (phase = "sess" /\ Len(sess.log) = SessLen => CSVWrite("%1$s", <<ToJson(SessLine)>>, IOEnv.OUT))
         \* the name tables, once per mode (at one initial state)
         /\ (phase = "symbols" /\ cf.cls = 32 /\ cf.le /\ ((mode = "lookup" /\ N0 = 1) \/ (mode = "fields" /\ N0 = 0)) =>
               CSVWrite("%1$s", <<ToJson([tables |-> Tables])>>, IOEnv.OUT))
@@ -606,4 +779,68 @@ SymRoundTrip ==
                    /\ (s.shndx # 65535 => s.xs = Z)                                                   \* companion word 0 off SHN_XINDEX
               /\ \A k \in AllIds : \A i \in ByName(k) : tab[i + 1].nm = k
               /\ UNION {ByName(k) : k \in AllIds} = 0..(N0 - 1)
+(* ---------------------- dyn mode and its sessions ---------------------- *)
+\* the dynamic object is what the gABI says: every table sits at address DynBase + file offset inside the one PT_LOAD (so the
+\* address translates back to the section's offset), PT_DYNAMIC covers exactly .dynamic, the array ends with its only DT_NULL,
+\* names the hash tables cf.tags says, nothing overlaps, and the file has section headers iff cf.sht
+DynWellFormed ==
+  mode = "dyn" /\ phase = "linked" =>
+    LET im == Image
+        w == cf.cls \div 8
+        ld == im.segs[1]   pd == im.segs[2]
+        loads == << [va |-> Digits(ld.vaddr, w), fsz |-> ld.filesz.n, msz |-> ld.memsz.n, off |-> ld.offset.n] >>
+        r == SegRead(im) IN
+    /\ Len(im.secs) = 5 /\ Len(im.segs) = 2 /\ ld.type = PtLoad /\ pd.type = PtDynamic
+    /\ (NSec(im) = 0) <=> ~cf.sht
+    /\ ChunksDisjoint(im)
+    /\ \A k \in 1..5 : /\ im.secs[k].addr = N(DynBase + SecOff(im, k))
+                       /\ DS!PtrToOffset(loads, Digits(im.secs[k].addr, w)) = SecOff(im, k)
+                       /\ SecOff(im, k) + Len(im.secs[k].data) <= ld.filesz.n
+    /\ pd.offset = N(SecOff(im, 5)) /\ pd.filesz = N(Len(mem.dyn)) /\ im.secs[5].data = mem.dyn
+    /\ r.n * DS!DynEnt(cf.cls) = Len(mem.dyn)
+    /\ r.hash <=> cf.tags \in {"both", "sysv"}
+    /\ r.gnu <=> cf.tags \in {"both", "gnu"}
+\* the segment view = the declarative view: a reader that has nothing but the program headers and the dynamic array finds the
+\* count, exactly the symbol and string table bytes the writer serialised (so SymRoundTrip / NamesResolve speak for its
+\* entries), and scanning that table for a name gives exactly ByName
+SegViewAgrees ==
+  mode = "dyn" /\ phase = "linked" =>
+    LET r == SegRead(Image) IN
+    /\ r.ok /\ r.cnt = N0
+    /\ r.m.sym = mem.sym /\ r.m.str = mem.str /\ r.m.ent = mem.ent
+    /\ \A k \in AllIds : {i \in 0..(r.cnt - 1) : NameIs(r.m, i, NameSeq[k])} = ByName(k)
+\* sessions.  The answer logged for the latest call is what a scan of the table's bytes started afresh gives (SegViewAgrees: the
+\* same bytes for both targets), whatever calls preceded it on the same object (by induction over the log: every call of
+\* every session)
+StrictAsc(sq) == \A i \in 1..(Len(sq) - 1) : sq[i] < sq[i + 1]
+SessionAnswers ==
+  phase = "sess" /\ sess.log # <<>> =>
+    LET c == sess.log[Len(sess.log)]   n == NSyms(MG) IN
+    CASE c.op = "name" -> /\ {c.ans[i] : i \in 1..Len(c.ans)} = {i \in 0..(n - 1) : NameIs(MG, i, NameSeq[c.q])}
+                          /\ StrictAsc(c.ans)
+      [] c.op = "num" -> c.ans = <<n>>
+      [] c.op = "all" -> c.ans = [i \in 1..n |-> i - 1]
+      [] c.op = "get" -> c.ans = <<c.q>> /\ c.q >= 0 /\ c.q < n
+      [] OTHER -> TRUE
+\* equal calls have equal answers, wherever they stand in the session (step excepted: the one call with a memory)
+SessionOrderFree ==
+  phase = "sess" =>
+    \A i, j \in 1..Len(sess.log) :
+      sess.log[i].op = sess.log[j].op /\ sess.log[i].q = sess.log[j].q /\ sess.log[i].op # "step" => sess.log[i].ans = sess.log[j].ans
+\* an iteration yields the indices in table order, each once, then stays exhausted - whatever is called in between
+LastOpen(log) == Max({0} \cup {i \in 1..Len(log) : log[i].op = "open"})
+IterInOrder ==
+  phase = "sess" =>
+    /\ (\A i \in 1..Len(sess.log) : sess.log[i].op = "step" => LastOpen(SubSeq(sess.log, 1, i)) > 0)
+    /\ LET st == SelectSeq(SubSeq(sess.log, LastOpen(sess.log) + 1, Len(sess.log)), LAMBDA c : c.op = "step") IN
+       \A i \in 1..Len(st) : st[i].ans = (IF i <= N0 THEN <<i - 1>> ELSE <<>>)
+\* the scripts ask for every name of SessQ - one of them absent from every dyn-mode table - and "weave" steps past the end
+SessionsCover ==
+  mode = "dyn" /\ phase = "linked" =>
+    /\ ByName(4) = {} /\ ByName(1) # {}
+    /\ \A d \in {"up", "down", "weave"} : \A k \in 1..Len(SessQ) : \E i \in 1..Len(Script(d)) : Script(d)[i] = Letter("name", SessQ[k])
+    /\ Cardinality({i \in 1..Len(Script("weave")) : Script("weave")[i].op = "step"}) > N0
+\* calls do not change the object
+SessionFrame == [][phase = "sess" => /\ phase' = "sess" /\ UNCHANGED <<mode, cf, tab, more, hp, mem, rd>>
+                                     /\ Len(sess'.log) = Len(sess.log) + 1 /\ sess'.tgt = sess.tgt /\ sess'.disc = sess.disc]_vars
 =============================================================================
